@@ -72,10 +72,19 @@ def main():
     names = []
     for fname in files:
         src = strip_comments(open(os.path.join(pdir, fname)).read())
-        ns = re.findall(r"^namespace\s+(\S+)", src, re.M)
-        prefix = ".".join(ns) + "." if ns else ""
-        for n in re.findall(r"^\s*(?:private\s+|protected\s+)?theorem\s+(\S+)", src, re.M):
-            names.append(prefix + n)
+        stack = []
+        for line in src.split("\n"):
+            m = re.match(r"^\s*namespace\s+(\S+)", line)
+            if m:
+                stack.append(m.group(1))
+                continue
+            m = re.match(r"^\s*end\s+(\S+)\s*$", line)
+            if m and stack and stack[-1] == m.group(1):
+                stack.pop()
+                continue
+            m = re.match(r"^\s*(?:@\[[^\]]*\]\s*)?(?:private\s+|protected\s+)?theorem\s+(\S+)", line)
+            if m:
+                names.append(".".join(stack + [m.group(1)]))
     res["obligations"] = len(names)
     os.makedirs(os.path.join(LEAN, ".lake", "audit"), exist_ok=True)
     af = os.path.join(LEAN, ".lake", "audit", pid + ".lean")
